@@ -2,7 +2,7 @@
 
 import math
 
-from kernel.type import RealType
+from kernel.type import RealType, NatType
 from kernel.term import Term, Var, Lambda, Inst, Nat, Real, Eq
 from kernel.thm import Thm
 from kernel.proofterm import ProofTerm, TacticException
@@ -46,6 +46,10 @@ def eval_hol_expr(t: Term):
     to approximate evaluation with real_approx_eval.
 
     """
+    if t.get_type() == NatType:
+        # Natural numbers: subtraction is truncated.
+        return nat.nat_eval(t)
+
     try:
         res = real.real_eval(t)
     except ConvException:
@@ -206,7 +210,15 @@ class ConstInequalityMacro(Macro):
 
     def can_eval(self, goal, prevs):
         if len(prevs) == 0:
-            res = eval_inequality_expr(goal)
+            # Evaluation follows the type of the two sides: real arithmetic for
+            # real numbers, truncated subtraction for natural numbers.
+            t = goal.arg if goal.is_not() else goal
+            if not (t.is_binop() and t.arg1.get_type() in (RealType, NatType)):
+                return False
+            try:
+                res = eval_inequality_expr(goal)
+            except ConvException:
+                return False
             return res
         else:
             return False
